@@ -43,10 +43,10 @@ def cases(tier, cfg, seed):
     for T in (['double'] if tier == 'quick' else ['double', 'float']):
         for n in (1, 2, 3, 4):
             for st in STR:
-                if 'Piv' in st and n > 3: continue
+                if 'Piv' in st and n > (2 if tier == 'quick' else 3): continue
                 out.append(Solve(T, n, st))
             out.append(Solve(T, n, 'SimpleInv', 2)); out.append(Solve(T, n, 'SimpleLU', 3 if n > 1 else 2)); out.append(Solve(T, n, 'SimpleInv', 0, lazy=True))
-        for n in ((5,) if tier == 'quick' else (5, 6, 7, 8)):
+        for n in (() if tier == 'quick' else (5, 6, 7, 8)):
             out.append(Solve(T, n, 'SimpleLU')); out.append(Solve(T, n, 'BlockLU'))
         if tier != 'quick': out.append(Solve(T, 5, 'SimpleInv')); out.append(Solve(T, 6, 'SimpleLU', 2))
     if tier == 'quick': out.append(Solve('float', 3, 'SimpleLU')); out.append(Solve('float', 4, 'SimpleInv'))
